@@ -3,6 +3,7 @@ module hx
 go 1.26.8
 
 require (
+	github.com/go-jose/go-jose/v3 v3.0.3
 	github.com/ory/fosite v0.0.0
 	golang.org/x/crypto v0.31.0
 )
@@ -16,7 +17,6 @@ require (
 	github.com/dgraph-io/ristretto v1.0.0 // indirect
 	github.com/dustin/go-humanize v1.0.1 // indirect
 	github.com/felixge/httpsnoop v1.0.4 // indirect
-	github.com/go-jose/go-jose/v3 v3.0.3 // indirect
 	github.com/go-logr/logr v1.4.2 // indirect
 	github.com/go-logr/stdr v1.2.2 // indirect
 	github.com/gobuffalo/pop/v6 v6.1.1 // indirect
